@@ -374,6 +374,14 @@ func vpSymClaims(n int) {
 	vpTokNbf = vpSymDate("nbf")
 	vpTokIat = vpSymDate("iat")
 	vpTokCustom = customClaims{RemoteServer: vpStringN("c-server", n), ClientIP: vpStringN("c-ip", n), AccessToken: vpStringN("c-at", n)}
+	// a token may have been issued with an empty recorded address or host (e.g. an X-Forwarded-For whose
+	// first element is empty): the binding must then be to the empty string, not to whatever was there
+	if vpBool("c-ip-empty") {
+		vpTokCustom.ClientIP = ""
+	}
+	if vpBool("c-server-empty") {
+		vpTokCustom.RemoteServer = ""
+	}
 }
 
 type vpTS struct{ tok *oauth2.Token }
